@@ -179,10 +179,6 @@ pub fn with_table(t: &Value, h: u64, watchdog: u64) -> Option<Value> {
     }
 }
 
-pub fn is_scalar_task(t: &Value) -> bool {
-    kind(&t["c"]) == "scalar"
-}
-
 pub fn needs_scalar_tua(p: &str) -> bool {
     matches!(p, "fp_np" | "fp_lp" | "edf_np" | "edf_lp")
 }
